@@ -135,8 +135,9 @@ func c17Run(c *fw.Ctx, idx int) {
 	for _, t := range tenants {
 		for k := 0; k < 4; k++ {
 			topic := c17Topics[rg.Intn(len(c17Topics))]
-			m := sentMsg{tenant: t, topic: topic, tag: fmt.Sprintf("m-%d-%s-%d", idx, t, k), retained: k == 0}
-			if acked, err := pubs[t].Publish(topic, []byte(m.tag), 1, m.retained, kit.DefaultWait); !acked {
+			m := sentMsg{tenant: t, topic: topic, tag: fmt.Sprintf("m-%d-%s-%d", idx, t, k), retained: k == idx%2}
+			qos := 1 + k%2 // QoS 1 and QoS 2 (acknowledged, so that the barrier argument holds)
+			if acked, err := pubs[t].Publish(topic, []byte(m.tag), qos, m.retained, kit.DefaultWait); !acked {
 				c.Inconclusive(fmt.Sprintf("%s: publish not acknowledged: %v", desc, err))
 				return
 			}
